@@ -28,7 +28,8 @@ const (
 	BugMacroSkipAfter                       // the line following a macro call is never examined for expansion
 	BugMacroNested                          // macro calls inside a macro body are not expanded
 	BugMacroLabelLost                       // labels written immediately before a macro call are dropped
-	bugAll             = 6
+	BugDbDecimalWide                        // `db <decimal>` emits the 8 bytes of a 64-bit number instead of one byte
+	bugAll             = 7
 )
 
 var bugSignature = map[BugFlags]string{
@@ -38,6 +39,7 @@ var bugSignature = map[BugFlags]string{
 	BugMacroSkipAfter: "C05|macro|line-after-expansion-skipped",
 	BugMacroNested:    "C05|macro|nested-call-not-expanded",
 	BugMacroLabelLost: "C05|macro|label-before-call-lost",
+	BugDbDecimalWide:  "C05|data|db-decimal-expression-emits-8-bytes",
 }
 
 var bugWhat = map[BugFlags]string{
@@ -47,6 +49,7 @@ var bugWhat = map[BugFlags]string{
 	BugMacroSkipAfter: "bodyMacros advances by len(expansion) and then the loop adds 1 more: the line right after a macro call is never examined, so a second consecutive macro call is left unexpanded and the source is rejected",
 	BugMacroNested:    "macro bodies are never scanned for macro calls: a macro invoked inside another macro stays as an unknown operation and the source is rejected",
 	BugMacroLabelLost: "a label written just before a macro call is attached to the call line, which bodyMacros replaces by the body lines: the label disappears",
+	BugDbDecimalWide:  "a decimal (or 0d/0u) expression of a `db` data directive is imported as a 64-bit number and emitted as 8 ROM cells (7 zero cells then the value) instead of the single byte the documentation promises; later data symbols are shifted accordingly",
 }
 
 // ---------- source model ----------
@@ -73,8 +76,9 @@ type Section struct {
 }
 
 type DataVar struct {
-	Name  string
-	Bytes []uint64
+	Name    string
+	Bytes   []uint64
+	Decimal []bool // the expression was written in a decimal notation (plain, 0d, 0u)
 }
 
 type Macro struct {
@@ -225,6 +229,7 @@ func ParseSource(text string) (*Source, error) {
 						return nil, fmt.Errorf("line %d: bad byte %q", ln, b)
 					}
 					dv.Bytes = append(dv.Bytes, v)
+					dv.Decimal = append(dv.Decimal, !strings.HasPrefix(b, "0x") && !strings.HasPrefix(b, "0b"))
 				}
 				curSec.Data = append(curSec.Data, dv)
 				continue
@@ -306,18 +311,24 @@ type FlatCP struct {
 }
 
 type Flat struct {
-	CPs    []FlatCP
-	Reject string   // non-empty: the model predicts a rejection
-	Fired  BugFlags // emulated defects that changed something
+	CPs         []FlatCP
+	Reject      string   // non-empty: the model predicts a rejection
+	RejectClass string   // when the rejection is the consequence of an emulated defect: the error class expected
+	Fired       BugFlags // emulated defects that changed something
 }
 
 type rawLine struct {
 	labels []string
 	op     string
 	args   []string
+	bad    bool // left unexpanded / unsubstituted by an emulated defect: "no operator match"
+	badSym bool // unsubstituted parameter in a jump-target position: taken for a symbol, unresolved later
 }
 
 // expand performs macro expansion of one section body under the given (possibly faulty) model.
+// Failures that are the *consequence of an emulated defect* do not stop the expansion: the line is
+// kept as the assembler would keep it (bad=true) and the caller derives the predicted error from
+// the pass order. reject != "" only for sources that are not well-formed.
 func expand(src *Source, sec *Section, bugs BugFlags, fired *BugFlags) (lines []rawLine, entry string, lostEntryAt int, reject string) {
 	lostEntryAt = -1
 	var pending []string
@@ -327,12 +338,18 @@ func expand(src *Source, sec *Section, bugs BugFlags, fired *BugFlags) (lines []
 	emitBody = func(m *Macro, args []string, depth int) string {
 		for _, it := range m.Items {
 			a := make([]string, len(it.Args))
+			bad, badSym := false, false
 			for i, x := range it.Args {
 				a[i] = x
 				if strings.Contains(x, "%") {
 					if bugs&BugMacroNoSubst != 0 {
 						*fired |= BugMacroNoSubst
-						return "unsubstituted macro parameter"
+						if ((it.Op == "j" || it.Op == "jmp") && i == 0) || (it.Op == "jz" && i == 1) {
+							badSym = true // every unknown operand of a jump is typed "symbol"
+						} else {
+							bad = true
+						}
+						continue
 					}
 					for k := len(args); k >= 1; k-- {
 						a[i] = strings.ReplaceAll(a[i], "%"+strconv.Itoa(k), args[k-1])
@@ -345,7 +362,9 @@ func expand(src *Source, sec *Section, bugs BugFlags, fired *BugFlags) (lines []
 			if inner, ok := src.Macros[it.Op]; ok {
 				if bugs&BugMacroNested != 0 {
 					*fired |= BugMacroNested
-					return "nested macro call left unexpanded"
+					lines = append(lines, rawLine{labels: pending, op: it.Op, args: a, bad: true})
+					pending = nil
+					continue
 				}
 				if depth >= 2 {
 					return "macro recursion"
@@ -353,12 +372,17 @@ func expand(src *Source, sec *Section, bugs BugFlags, fired *BugFlags) (lines []
 				if len(a) != inner.NArgs {
 					return "macro argument count"
 				}
+				if bad {
+					lines = append(lines, rawLine{labels: pending, op: it.Op, args: a, bad: true})
+					pending = nil
+					continue
+				}
 				if r := emitBody(inner, a, depth+1); r != "" {
 					return r
 				}
 				continue
 			}
-			lines = append(lines, rawLine{labels: pending, op: it.Op, args: a})
+			lines = append(lines, rawLine{labels: pending, op: it.Op, args: a, bad: bad, badSym: badSym && !bad})
 			pending = nil
 		}
 		return ""
@@ -382,15 +406,19 @@ func expand(src *Source, sec *Section, bugs BugFlags, fired *BugFlags) (lines []
 			skipNext = false
 		case itInstr:
 			if m, ok := src.Macros[it.Op]; ok {
-				if skipNext {
-					*fired |= BugMacroSkipAfter
-					return nil, entry, -1, "macro call right after a macro call left unexpanded"
-				}
 				if len(it.Args) != m.NArgs {
 					return nil, entry, -1, "macro argument count"
 				}
 				if len(m.Items) == 0 {
 					return nil, entry, -1, "empty macro"
+				}
+				if skipNext {
+					// the call line is never examined: it stays in the body as an unknown operation
+					*fired |= BugMacroSkipAfter
+					lines = append(lines, rawLine{labels: pending, op: it.Op, args: it.Args, bad: true})
+					pending = nil
+					skipNext = false
+					continue
 				}
 				if len(pending) > 0 && bugs&BugMacroLabelLost != 0 {
 					*fired |= BugMacroLabelLost
@@ -420,6 +448,10 @@ func expand(src *Source, sec *Section, bugs BugFlags, fired *BugFlags) (lines []
 // assembler is predicted to produce when the given known defects are present.
 func Flatten(src *Source, bugs BugFlags) *Flat {
 	out := &Flat{}
+	// consequences of emulated defects, in the order the assembler passes would meet them:
+	// entryPoints ("entry point not detected") < matcherResolver ("no operator match") <
+	// Assembler2BondMachine ("unknown number format <label>")
+	softEntry, softNoOp, softSym := false, false, false
 	for _, cp := range src.CPs {
 		sec, ok := src.Sections[cp.RomCode]
 		if !ok || sec.Kind != ".romtext" {
@@ -431,6 +463,7 @@ func Flatten(src *Source, bugs BugFlags) *Flat {
 			out.Reject = rej
 			return out
 		}
+		lostLabels := out.Fired&(BugLabelEntryLost|BugMacroLabelLost) != 0
 		labels := map[string]int{}
 		for i, l := range lines {
 			for _, name := range l.labels {
@@ -453,25 +486,46 @@ func Flatten(src *Source, bugs BugFlags) *Flat {
 			off := 0
 			for _, v := range ds.Data {
 				dataSyms[v.Name] = len(lines) + off
-				off += len(v.Bytes)
-				fc.Data = append(fc.Data, v.Bytes...)
+				for k, b := range v.Bytes {
+					if v.Decimal[k] && bugs&BugDbDecimalWide != 0 {
+						out.Fired |= BugDbDecimalWide
+						fc.Data = append(fc.Data, 0, 0, 0, 0, 0, 0, 0)
+						off += 7
+					}
+					fc.Data = append(fc.Data, b)
+					off++
+				}
 			}
 		}
 		if e, ok := labels[entry]; ok {
 			fc.Entry = e
 		} else if lostEntryAt >= 0 && lostEntryAt < len(lines) {
-			// the entry label itself was the lost one: the assembler still accepts (it saw the
-			// symbol on the directive line) but what it records is unspecified
+			// the entry label itself was the one lost on the directive line: the assembler still
+			// accepts (it saw the symbol there) but what it records is unspecified
 			fc.Entry = lostEntryAt
 			fc.EntryOK = false
+		} else if lostLabels {
+			softEntry = true
 		} else {
 			out.Reject = "entry label undefined"
 			return out
 		}
 		maxv := uint64(1)<<uint(src.Rsize) - 1
 		for _, l := range lines {
+			if l.bad {
+				softNoOp = true
+				continue
+			}
+			if l.badSym {
+				softSym = true
+				continue
+			}
 			fi, rej := resolveInstr(l, sec.IOMode, labels, dataSyms, maxv, src.Config)
 			if rej != "" {
+				if strings.HasPrefix(rej, "undefined label") && lostLabels {
+					softSym = true
+					continue
+				}
 				out.Reject = rej
 				return out
 			}
@@ -481,6 +535,14 @@ func Flatten(src *Source, bugs BugFlags) *Flat {
 			fc.Code = append(fc.Code, fi)
 		}
 		out.CPs = append(out.CPs, fc)
+	}
+	switch {
+	case softEntry:
+		out.Reject, out.RejectClass = "entry label lost by an emulated defect", "entry-point-not-detected"
+	case softNoOp:
+		out.Reject, out.RejectClass = "macro call / parameter left in the body by an emulated defect", "no-operator-match"
+	case softSym:
+		out.Reject, out.RejectClass = "jump to a label lost by an emulated defect", "unresolved-symbol"
 	}
 	return out
 }
@@ -757,6 +819,126 @@ func Interpret(src *Source, fl *Flat, start []int, delay []int, T int) [][]uint6
 	return trace
 }
 
+// InterpretKahn gives the timing-independent meaning of programs that use the handshaked opcodes:
+// r2owa is a blocking send, i2rw a blocking receive (rendezvous on the ioatt link), everything else
+// as in Interpret. It returns, per BM output, the sequence of values it takes (initial 0, then one
+// entry per change). nil = the program mixes handshaked and timing-dependent IO (not comparable).
+func InterpretKahn(src *Source, fl *Flat, start []int, rounds int) [][]uint64 {
+	w := buildWiring(src)
+	mask := uint64(1)<<uint(src.Rsize) - 1
+	n := len(fl.CPs)
+	regs := make([][10]uint64, n)
+	pc := make([]int, n)
+	copy(pc, start)
+	seq := make([][]uint64, w.nOut)
+	for k := range seq {
+		seq[k] = []uint64{0}
+	}
+	// reader of each cp output
+	type end struct{ cp, idx int }
+	reader := map[end]end{}
+	for k, s := range w.cpIn {
+		if s[0] >= 0 {
+			reader[end{s[0], s[1]}] = end{k[0], k[1]}
+		}
+	}
+	bmOf := map[end]int{}
+	for k, s := range w.bmOut {
+		bmOf[end{s[0], s[1]}] = k
+	}
+	cur := func(i int) *FlatInstr {
+		if pc[i] < 0 || pc[i] >= len(fl.CPs[i].Code) {
+			return nil
+		}
+		return &fl.CPs[i].Code[pc[i]]
+	}
+	for round := 0; round < rounds; round++ {
+		stepped := make([]bool, n)
+		for i := 0; i < n; i++ {
+			if stepped[i] {
+				continue
+			}
+			in := cur(i)
+			if in == nil {
+				return seq // fell off the program: stop here
+			}
+			r := func(k int) int { return int(in.Args[k][1] - '0') }
+			num := func(k int) uint64 { v, _ := strconv.ParseUint(in.Args[k], 10, 64); return v }
+			next := pc[i] + 1
+			switch in.Op {
+			case "rset":
+				regs[i][r(0)] = num(1) & mask
+			case "cpy":
+				regs[i][r(0)] = regs[i][r(1)]
+			case "add":
+				regs[i][r(0)] = (regs[i][r(0)] + regs[i][r(1)]) & mask
+			case "inc":
+				regs[i][r(0)] = (regs[i][r(0)] + 1) & mask
+			case "dec":
+				regs[i][r(0)] = (regs[i][r(0)] - 1) & mask
+			case "clr":
+				regs[i][r(0)] = 0
+			case "nop":
+			case "j":
+				next = int(num(0))
+			case "jz":
+				if regs[i][r(0)] == 0 {
+					next = int(num(1))
+				}
+			case "r2o":
+				k, ok := bmOf[end{i, r(1)}]
+				if !ok {
+					return nil // async cp-to-cp traffic is timing dependent
+				}
+				if v := regs[i][r(0)]; seq[k][len(seq[k])-1] != v {
+					seq[k] = append(seq[k], v)
+				}
+			case "i2r":
+				s, ok := w.cpIn[[2]int{i, r(1)}]
+				if !ok || s[0] >= 0 {
+					return nil
+				}
+				regs[i][r(0)] = ExtInput(s[1], src.Rsize)
+			case "r2owa":
+				rd, ok := reader[end{i, r(1)}]
+				if !ok {
+					return nil // handshake with the outside world is not modelled
+				}
+				peer := cur(rd.cp)
+				if peer == nil {
+					return seq
+				}
+				if stepped[rd.cp] || peer.Op != "i2rw" || int(peer.Args[1][1]-'0') != rd.idx {
+					continue // blocked
+				}
+				regs[rd.cp][int(peer.Args[0][1]-'0')] = regs[i][r(0)]
+				pc[rd.cp]++
+				stepped[rd.cp] = true
+			case "i2rw":
+				s, ok := w.cpIn[[2]int{i, r(1)}]
+				if !ok || s[0] < 0 {
+					return nil
+				}
+				peer := cur(s[0])
+				if peer == nil {
+					return seq
+				}
+				if stepped[s[0]] || peer.Op != "r2owa" || int(peer.Args[1][1]-'0') != s[1] {
+					continue // blocked
+				}
+				regs[i][r(0)] = regs[s[0]][int(peer.Args[0][1]-'0')]
+				pc[s[0]]++
+				stepped[s[0]] = true
+			default:
+				return nil
+			}
+			pc[i] = next
+			stepped[i] = true
+		}
+	}
+	return seq
+}
+
 // WellFormed reports whether the source is inside the subset the property quantifies over.
 func WellFormed(src *Source) (bool, string) {
 	fl := Flatten(src, 0)
@@ -767,8 +949,20 @@ func WellFormed(src *Source) (bool, string) {
 	if w.err != "" {
 		return false, w.err
 	}
-	// every used input/output must be wired
+	// every used input/output must be wired; every CP uses at least one register (the assembler
+	// refuses register-less processors by design: "no registers found on ROM/RAM code")
 	for i, cp := range fl.CPs {
+		usesReg := false
+		for _, in := range cp.Code {
+			for _, kd := range in.Kinds {
+				if kd == "reg" {
+					usesReg = true
+				}
+			}
+		}
+		if !usesReg {
+			return false, "cp without any register"
+		}
 		for _, in := range cp.Code {
 			for k, kd := range in.Kinds {
 				idx := 0
